@@ -15,6 +15,8 @@ func (g gate) close()  {}
 func raceAcquire(p unsafe.Pointer)      {}
 func raceRelease(p unsafe.Pointer)      {}
 func raceReleaseMerge(p unsafe.Pointer) {}
+func raceRead(p unsafe.Pointer)         {}
+func raceWrite(p unsafe.Pointer)        {}
 
 // RaceMode reports whether the binary was built with -race.
 const RaceMode = false
